@@ -71,6 +71,61 @@ Definition srt_step (srt : N) (e : srt_event) : N :=
 
 Definition srt_run (srt : N) (es : list srt_event) : N := fold_left srt_step es srt.
 
+(* ---------- writes: what the caller is told, and what may be re-submitted ---------- *)
+
+(* how raft's apply future of a submitted entry ends *)
+Inductive apply_end :=
+  | AOk               (* committed and applied here *)
+  | ANotLeader        (* raft.ErrNotLeader: never appended *)
+  | ALeadershipLost   (* raft.ErrLeadershipLost: appended, fate unknown - the next leader may commit it *)
+  | AOther.           (* enqueue timeout, shutdown, ... *)
+
+(* the class of what Store.Execute / Store.Request (write path) return *)
+Inductive write_class :=
+  | WAcked            (* nil *)
+  | WNotLeader        (* store.ErrNotLeader: nothing was appended here *)
+  | WNotReady         (* store.ErrNotReady: nothing was appended here *)
+  | WUnknown.         (* any other error: the statement may or may not take effect *)
+
+(* Store.Execute / execute, Store.Request: leader and readiness are checked before anything is
+   handed to raft; of the apply future's errors only raft.ErrNotLeader becomes store.ErrNotLeader *)
+Definition execute_class (leader ready : bool) (a : apply_end) : write_class :=
+  if negb leader then WNotLeader
+  else if negb ready then WNotReady
+  else match a with
+       | AOk => WAcked
+       | ANotLeader => WNotLeader
+       | ALeadershipLost | AOther => WUnknown
+       end.
+
+(* proxy.Execute / proxy.Request: the request is sent on to the leader exactly when the local
+   store answered ErrNotLeader *)
+Definition forwards (c : write_class) : bool :=
+  match c with WNotLeader => true | _ => false end.
+
+(* one submission of the statement to a store: the node as the call finds it, how the future
+   ends, and whether an entry carrying the statement was put into that node's log *)
+Record attempt := {
+  at_leader : bool;
+  at_ready : bool;
+  at_end : apply_end;
+  at_appended : bool
+}.
+
+Definition attempt_class (a : attempt) : write_class := execute_class (at_leader a) (at_ready a) (at_end a).
+
+(* was anything appended: nothing is submitted when a pre-check fails *)
+Definition attempt_appended (a : attempt) : bool := at_leader a && at_ready a && at_appended a.
+
+(* one client call through the proxy: entries carrying the statement that exist afterwards *)
+Definition call_entries (local remote : attempt) : N :=
+  (if attempt_appended local then 1 else 0)
+  + (if forwards (attempt_class local) then (if attempt_appended remote then 1 else 0) else 0).
+
+(* what the client is told *)
+Definition call_class (local remote : attempt) : write_class :=
+  if forwards (attempt_class local) then attempt_class remote else attempt_class local.
+
 (* ---------- correspondence ---------- *)
 
 (* a step trace of one waitForLinearizableRead call *)
@@ -101,9 +156,19 @@ Record first_reads := {
   f_srt_after : N
 }.
 
+(* one write call observed: the node when the call was made, how raft ended the future (known from
+   how the scenario was built), whether the node's log grew by the entry, the class of the error
+   returned and whether the proxy rule sent the statement on *)
+Record write_seen := {
+  ws_attempt : attempt;
+  ws_class : write_class;
+  ws_forwarded : bool
+}.
+
 Inductive case :=
   | CTrace (t : trace)
-  | CFirst (f : first_reads).
+  | CFirst (f : first_reads)
+  | CWrite (x : write_seen).
 
 Definition lin_result_eqb (a b : lin_result) : bool :=
   match a, b with
@@ -133,4 +198,11 @@ Definition check_case (c : case) : bool :=
       lin_result_eqb (wait_lin (c_obs t)) (c_result t)
       && Bool.eqb (lin_calls_verify (c_obs t)) (c_verified t)
   | CFirst f => check_first f
+  | CWrite x =>
+      let c := attempt_class (ws_attempt x) in
+      match c, ws_class x with
+      | WAcked, WAcked | WNotLeader, WNotLeader | WNotReady, WNotReady | WUnknown, WUnknown => true
+      | _, _ => false
+      end
+      && Bool.eqb (forwards c) (ws_forwarded x)
   end.
